@@ -35,6 +35,8 @@ SEARCHED = [
     "no emitted text contains an anonymous-symbol name (`_tmp`)",
     "apmath/lax configuration (context parameter dtypes=[...], ArrayLike arguments): text identical across >= 12 hash seeds; "
     "one `_np_dtypes.index(<arg>.dtype.type)` per class of arguments declared same-dtype (structural clause on find_dtype_index)",
+    "user definitions with aliased locals (2-3 locals bound to one expression, aliases of arguments, aliases used in another order) on all five targets "
+    "under >= 12 hash seeds; the first-bound local names the expression in the text (structural clause on Context.__call__)",
     "that CPython exposes no channel other than those in the census is NOT a theorem",
 ]
 TRUSTED = [
@@ -377,7 +379,7 @@ def make_jobs(ctx, reqs, nseeds, heavy):
                              plan=[dict(kind="interleave", req=r, others=[rng.choice(reqs) for _ in range(3)]) for r in order]))
     # D: the apmath/lax configuration (the only one that exercises Context.dtype_index / find_dtype_index / the
     # same_dtype_cache) under at least 12 hash seeds of its own, in child interpreters
-    lax = [r for r in reqs if r[0] == "lax"]
+    lax = [r for r in reqs if r[0] == "lax" or r[1].startswith("alias_")]
     if lax:
         for si in range(max(12, nseeds)):
             order = list(lax)
@@ -442,6 +444,30 @@ def search(ctx, reqs, broken_items, heavy):
                       dict(probe="dtype_struct", req=list(key), hashseed=job["hashseed"], struct=st),
                       broken_item=census_dt[0] if census_dt else None)
         for it in census_dt[1:]:
+            it["has_failing_input"] = True
+    # structural clause on aliased locals (needs no luck with seeds): the FIRST-bound local names the expression
+    alias_bad, nalias = {}, 0
+    for job, (res, err) in zip([base_job] + jobs, results):
+        for r in (res or {}).get("results", []):
+            st = r.get("alias_struct")
+            if st is not None:
+                nalias += 1
+                ctx.count("alias_struct:checked")
+                if not st["ok"]:
+                    alias_bad.setdefault(tuple(r["req"]), (job, st))
+    ctx.notes["alias_struct_checked"] = nalias
+    ctx.obligation("search:aliased locals structural clause (the first-bound local names the expression; later aliases are absent from the text)",
+                   not alias_bad, kind="search")
+    for key, (job, st) in sorted(alias_bad.items(), key=lambda kv: (kv[0][1], kv[0][0]))[:2]:
+        print(f"[C09] aliased-locals clause fails for {list(key)} under PYTHONHASHSEED={job['hashseed']}: expected the first-bound locals "
+              f"{st['first_bound']} in the text and none of the later aliases {st['later_aliases']}; missing {st['missing']}, present {st['present']}", flush=True)
+        ctx.violation("alias-naming:later-bound-local-names-the-expression(Context.__call__)",
+                      f"text of {list(key)}: an expression bound to several locals is named by a later-bound alias {st['present']} instead of the "
+                      f"first-bound local {st['missing']} (Context.__call__ must walk the caller's locals in definition order)",
+                      dict(probe="alias_struct", req=list(key), hashseed=job["hashseed"], struct=st),
+                      broken_item=census_dt[0] if census_dt else None)
+        # the same failing input answers a model/implementation disagreement on Context.__call__ (the `autoname` order)
+        for it in census_dt[1:] + [b for b in broken_items if b["name"].startswith("correspondence:RefNames")]:
             it["has_failing_input"] = True
     for job, (res, err) in zip(jobs, results[1:]):
         if res is None:
@@ -575,6 +601,15 @@ def replay(ctx, obj):
             return 0 if a and b else 1
         print(udiff(a["text"], b["text"], f"PYTHONHASHSEED={rp['seeds'][0]}", f"PYTHONHASHSEED={rp['seeds'][1]}"))
         return 1
+    if rp.get("probe") == "alias_struct":
+        r, err = worker(dict(mode="sha", plan=[dict(kind="plain", req=rp["req"])], texts=True), hashseed=rp.get("hashseed", 0))
+        if r is None:
+            print("worker failed:", err)
+            return 1
+        st = r["results"][0].get("alias_struct")
+        print(r["results"][0]["text"][0])
+        print("alias_struct:", st)
+        return 0 if st and st["ok"] else 1
     if rp.get("probe") == "dtype_struct":
         r, err = worker(dict(mode="sha", plan=[dict(kind="plain", req=rp["req"])], texts=True), hashseed=rp.get("hashseed", 0))
         if r is None:
